@@ -9,11 +9,14 @@
    given; the instant survives the text round trip (Prop_C05).  The zone arithmetic of
    astimezone and the tz database are Python run time, not modelled: tied by running the
    histories in processes whose local zone is UTC, America/Los_Angeles, Australia/Lord_Howe
-   and Asia/Kathmandu.  Stamp.v: the float timestamps of the index, tested (not proved) to be
-   strictly ordered for adjacent microseconds over 1700-2240. *)
+   and Asia/Kathmandu.  Stamp.v / StampP.v: the float timestamps the index keeps
+   (datetime.timestamp(): one correctly rounded binary64 division of the microsecond count by 10^6)
+   compare exactly as the integer instants do, for every pair of instants in 1700-2240 - proved with
+   Flocq over the kernel's primitive floats - which is what lets Index.v carry exact Z microseconds. *)
 From Coq Require Import List ZArith NArith Bool Sorted Permutation.
 From TF Require Import Base Query Index DB Spec Stamp proofs.BaseP proofs.TimeSearchP proofs.IndexDefs proofs.DBReadP
      proofs.DBStepP proofs.DBSpecP proofs.TimeP.
+From TF Require proofs.StampP.
 Import ListNotations.
 
 Theorem C08_index_compares_instants : forall (i : index) (c : cmp) (t : Z) (pts : list point),
@@ -40,6 +43,11 @@ Theorem C08_insert_stores_points_as_given : forall norm s ps m, Inv s -> wf_inse
   st_rows (fst r) = st_rows s ++ map (rename m) (prefix_points ps) /\
   snd r = (if all_points ps then ONat (length ps) else ORaise) /\ Inv (fst r).
 Proof. exact db_insert_spec. Qed.
+(* the float stamps of the index order instants exactly as the integers do: every pair of instants in 1700-2240 *)
+Theorem C08_float_stamps_order_instants : forall a b, in_range a = true -> in_range b = true ->
+  PrimFloat.ltb (stamp a) (stamp b) = Z.ltb a b /\ PrimFloat.eqb (stamp a) (stamp b) = Z.eqb a b /\
+  PrimFloat.leb (stamp a) (stamp b) = Z.leb a b.
+Proof. exact StampP.stamp_order_faithful. Qed.
 (* a TEST evaluated by the kernel's VM over boundaries of float spacing and 20000 other instants *)
 Example C08_float_stamps_adjacent_tested : forallb adjacent_ok samples = true.
 Proof. exact stamp_adjacent_tested. Qed.
@@ -51,4 +59,5 @@ Print Assumptions C08_sorted_is_permutation.
 Print Assumptions C08_sort_stable.
 Print Assumptions C08_update_assigns_instant.
 Print Assumptions C08_insert_stores_points_as_given.
+Print Assumptions C08_float_stamps_order_instants.
 Print Assumptions C08_float_stamps_adjacent_tested.
